@@ -235,7 +235,7 @@ def attach_scc_subdiagram(
         else:
             # This node can be marked as expanded, because we know its successors.
             # We just need to add them in the for loop below.
-            sd.node_data(main_node_id)["expanded"] = True
+            _mark_expanded(sd, main_node_id)
 
         if check_maa:
             if len(scc_sd.node_attractor_candidates(scc_node_id, compute=True)) == 0:
@@ -259,7 +259,7 @@ def attach_scc_subdiagram(
             sd._ensure_edge(main_node_id, main_succ_id, inner_stable_motif)  # type: ignore
 
     # This makes the `attach_at` node expanded. We will not be adding new nodes to it later.
-    sd.node_data(attach_at)["expanded"] = True
+    _mark_expanded(sd, attach_at)
     # Finally, if we are checking for MAAs, we can do that for the root too:
     if check_maa:
         if len(scc_sd.node_attractor_candidates(scc_sd.root(), compute=True)) == 0:
@@ -267,3 +267,17 @@ def attach_scc_subdiagram(
             sd.node_data(attach_at)["attractor_sets"] = []
 
     return min_traps
+
+
+def _mark_expanded(sd: SuccessionDiagram, node_id: int):
+    """
+    Mark a node as expanded. If the node was not expanded before, it is about
+    to gain successors, which invalidates any attractor data computed while it
+    had none.
+    """
+    node = sd.node_data(node_id)
+    if not node["expanded"]:
+        node["attractor_seeds"] = None
+        node["attractor_candidates"] = None
+        node["attractor_sets"] = None
+    node["expanded"] = True
